@@ -18,6 +18,7 @@ var Checks = map[string]vk.Check{
 	"C09": C09,
 	"C13": C13,
 	"C08": C08,
+	"C11": C11,
 }
 
 // TestWorker is the entry point of the worker binary (`go test -c`): synctest needs a
